@@ -776,6 +776,132 @@ Section Programs.
       destruct (Nat.ltb_spec k N) as [Hlt|]; [|reflexivity].
       specialize (Hno k Hlt). rewrite Nat.eqb_refl in Hno. discriminate.
   Qed.
+  (* ---- the trait defaults (src/functional.rs map / fold, src/sequence.rs inverted_zip2): what `&GenericArray`,
+          `&mut GenericArray` and every other sequence run.  `self` is iterated by value; whether its items
+          are owned (so = true) or lent (a by-reference sequence, so = false) is the caller's choice ---- *)
+  Lemma dmap_good a so nd : good [a] so f g pan (pipe_of gen_default_map nd) (map (fun x => [x]) a) [so].
+  Proof.
+    intros i st row Hrow Hp Hl. rewrite nth_error_map in Hrow.
+    destruct (nth_error a i) as [x|] eqn:Hx; [|discriminate]. injection Hrow as <-.
+    destruct so; pipe_step Hp Hl.
+  Qed.
+
+  Lemma drops_single_so so l :
+    flat_map (fun r => map EDrop (owned_ids [so] r)) (map (fun x => [x]) l) = if so then map EDrop l else [].
+  Proof. induction l as [|x l IH]; [now destruct so|]. cbn [map flat_map]. rewrite IH. now destruct so. Qed.
+
+  Theorem tie_default_map a so nd :
+    flat5 (run_from_iter [a] so f g pan (pipe_of gen_default_map nd) (length a)) = map_ so f pan a.
+  Proof.
+    pose proof (from_iter_run [a] so f g pan _ _ _ (nb_of gen_default_map nd eq_refl) (dmap_good a so nd)) as H.
+    rewrite map_length in H. rewrite H. unfold map_, zipmap. rewrite map_length.
+    destruct (try_from_iter (length a) (pipe_src f pan (map (fun x => [x]) a))) as [[o e] p].
+    cbv zeta. unfold flat5. f_equal. f_equal. f_equal. f_equal.
+    unfold teardown. cbn [pipe_of select gen_default_map p_srcs rev app flat_map snd nth_error].
+    rewrite skipn_map, drops_single_so. destruct so; cbn; now rewrite ?app_nil_r.
+  Qed.
+
+  Lemma dzip2_good a b so nd :
+    good [b; a] so f g pan (pipe_of gen_default_inverted_zip2 nd) (zrows a b) [so; so].
+  Proof.
+    intros i st row Hrow Hp Hl. unfold zrows in Hrow. rewrite nth_error_map in Hrow.
+    destruct (nth_error (combine a b) i) as [[x y]|] eqn:Hxy; [|discriminate]. injection Hrow as <-.
+    apply nth_combine in Hxy. destruct Hxy as [Hx Hy]. cbn [fst snd] in *.
+    destruct so; pipe_step Hp Hl.
+    all: destruct (Z.eqb_spec x y) as [->|Hne]; cbn; rewrite ?Z.eqb_refl, ?app_nil_r; reflexivity.
+  Qed.
+
+  Lemma drops_none : forall a b,
+    flat_map (fun r => map EDrop (owned_ids [false; false] r)) (zrows a b) = [].
+  Proof. induction a as [|x a IH]; intros [|y b]; cbn; try reflexivity. apply IH. Qed.
+
+  (* inverted_zip2's default: both sequences iterated by value, f(lhs_i, self_i) *)
+  Theorem tie_default_zip2 a b so nd : length a = length b ->
+    agrees (run_from_iter [b; a] so f g pan (pipe_of gen_default_inverted_zip2 nd) (length a))
+           (zip_ so so f pan a b).
+  Proof.
+    intros Hlen.
+    pose proof (from_iter_run [b; a] so f g pan _ _ _ (nb_of gen_default_inverted_zip2 nd eq_refl) (dzip2_good a b so nd)) as H.
+    rewrite (zrows_length a b Hlen) in H. rewrite H. unfold zip_, zipmap. fold (zrows a b).
+    rewrite (zrows_length a b Hlen).
+    destruct (try_from_iter (length a) (pipe_src f pan (zrows a b))) as [[o e] p].
+    cbv zeta. unfold agrees. eexists. split; [reflexivity|].
+    unfold teardown. unfold pipe_of, gen_default_inverted_zip2, select. cbn.
+    unfold zrows. rewrite skipn_map, skipn_combine. fold (zrows (skipn (Nat.min p (length a)) a) (skipn (Nat.min p (length a)) b)).
+    assert (Hl' : length (skipn (Nat.min p (length a)) a) = length (skipn (Nat.min p (length a)) b))
+      by (rewrite !skipn_length; lia).
+    destruct so; cbn; rewrite ?app_nil_r.
+    - now apply drops_pairs.
+    - rewrite drops_none. apply Permutation_refl.
+  Qed.
+
+  (* fold's default: self.into_iter().fold(init, f) *)
+  Lemma dfold_step a so nd i st x : nth_error a i = Some x -> length (s_calls st) = i ->
+    step [a] so f g pan (pipe_of gen_default_fold nd) i st =
+    ((if is_pan pan i then RPanic else RUnit),
+     mkP (s_pos st) (s_ev st ++ (if so then [EMove x] else [])) (s_calls st ++ [[x]]) (s_written st)
+         (if is_pan pan i then s_acc st else g i (s_acc st) x)).
+  Proof.
+    intros Hx Hl. unfold step, pipe_of, select; cbn; unfold arg_elem; cbn. rewrite Hx.
+    destruct so; cbn; rewrite ?Z.eqb_refl, ?Hl; unfold is_pan;
+      destruct (match pan with Some p => Nat.eqb i p | None => false end);
+      cbn; rewrite ?Z.eqb_refl; unfold leave; cbn; rewrite ?app_nil_r; destruct st; reflexivity.
+  Qed.
+
+  Lemma dfold_run_spec a so nd : forall l i st,
+    (forall j x, nth_error l j = Some x -> nth_error a (i + j) = Some x) ->
+    length (s_calls st) = i ->
+    let '(o, c) := fold_loop g pan i (s_acc st) l in
+    exists st', fold_run [a] so f g pan (pipe_of gen_default_fold nd) (length l) i st = (fold_ok_b o, st', c) /\
+      s_ev st' = (s_ev st ++ (if so then map EMove (firstn (c - i) l) else []))%list /\
+      s_calls st' = (s_calls st ++ map (fun x => [x]) (firstn (c - i) l))%list /\
+      (forall acc', o = FoldOk acc' -> s_acc st' = acc').
+  Proof.
+    induction l as [|x l IH]; intros i st Hl Hc.
+    - cbn. exists st. rewrite Nat.sub_diag. cbn. destruct so; rewrite !app_nil_r; repeat split; try reflexivity.
+      all: now intros acc' [= <-].
+    - cbn [fold_loop length fold_run].
+      assert (Hx : nth_error a i = Some x) by (rewrite <- (Nat.add_0_r i); apply Hl; reflexivity).
+      rewrite (dfold_step a so nd i st x Hx Hc).
+      change (match pan with Some k => Nat.eqb i k | None => false end) with (is_pan pan i).
+      destruct (is_pan pan i) eqn:Hpan.
+      + eexists. split; [reflexivity|]. replace (S i - i) with 1 by lia. cbn.
+        destruct so; repeat split; try reflexivity; intros acc' H; discriminate.
+      + specialize (IH (S i) (mkP (s_pos st) (s_ev st ++ (if so then [EMove x] else [])) (s_calls st ++ [[x]]) (s_written st) (g i (s_acc st) x))).
+        cbn [s_acc s_pos s_calls s_ev] in IH.
+        destruct (fold_loop g pan (S i) (g i (s_acc st) x) l) as [o c] eqn:Hloop.
+        destruct IH as (st' & Hrun & He' & Hc' & Ha').
+        * intros j y Hy. replace (S i + j) with (i + S j) by lia. now apply Hl.
+        * rewrite app_length. cbn. lia.
+        * exists st'. split; [exact Hrun|].
+          assert (Hci : S i <= c) by (eapply fold_loop_ge; exact Hloop).
+          replace (c - i) with (S (c - S i)) by lia. cbn [firstn map].
+          rewrite He', Hc', <- !app_assoc. cbn. destruct so; repeat split; try reflexivity; assumption.
+  Qed.
+
+  Theorem tie_default_fold a so nd init :
+    let '(o, m, t, c) := run_fold [a] so f g pan (pipe_of gen_default_fold nd) (length a) init in
+    (o, (m ++ t)%list, List.concat c) = fold_ so g pan init a.
+  Proof.
+    unfold run_fold, fold_.
+    pose proof (dfold_run_spec a so nd a 0 (init_state [a] (pipe_of gen_default_fold nd) init)) as H.
+    cbn [s_acc init_state] in H.
+    destruct (fold_loop g pan 0 init a) as [o c] eqn:Hloop.
+    destruct H as (st' & Hrun & He' & Hc' & Ha'); [intros j x Hj; exact Hj|reflexivity|].
+    rewrite Hrun. rewrite Nat.sub_0_r in *. cbn [s_ev s_calls init_state app] in He', Hc'.
+    rewrite He', Hc'. unfold teardown. cbn.
+    f_equal; [f_equal|].
+    - destruct o as [acc'|]; cbn; [|reflexivity]. now rewrite (Ha' acc' eq_refl).
+    - destruct so; cbn; now rewrite ?app_nil_r.
+    - clear. induction (firstn c a) as [|x l IH]; [reflexivity|]. cbn. now rewrite IH.
+  Qed.
+
+  (* zip is the inverted zip of its second argument, with `self` and `f` handed over unchanged, in
+     GenericArray's own impl and in the trait default *)
+  Lemma tie_zip_delegations :
+    gen_zip_delegations =
+    [("lib.rs", "rhs", "inverted_zip", ["self"; "f"]); ("functional.rs", "rhs", "inverted_zip2", ["self"; "f"])].
+  Proof. reflexivity. Qed.
 End Programs.
 
 (* the boxed generate of src/impl_alloc.rs runs the same closure over the same builder *)
@@ -897,6 +1023,40 @@ Section Composed.
     flat5 (run_for_each [] so f g pan (pipe_of gen_generate nd) N) = generate_ N f pan /\
     flat5 (run_for_each [] so f g pan (pipe_of gen_boxed_generate nd) N) = generate_ N f pan.
   Proof. rewrite boxed_generate_same_loop. split; apply tie_generate. Qed.
+
+  (* ---- the trait defaults (by-reference and other sequences) ---- *)
+  Theorem src_default_map_in_order a so nd :
+    let '(o, m, t, e, c) := run_from_iter [a] so f g None (pipe_of gen_default_map nd) (length a) in
+    o = Ok (produced f 0 (map (fun x => [x]) a)) /\ c = map (fun x => [x]) a.
+  Proof.
+    exact (agrees_ok f _ [so] _ (flat5_agrees f None _ _ _ (tie_default_map f g None a so nd))).
+  Qed.
+
+  Theorem src_default_zip2_in_order a b so nd : length a = length b ->
+    let '(o, m, t, e, c) := run_from_iter [b; a] so f g None (pipe_of gen_default_inverted_zip2 nd) (length a) in
+    o = Ok (produced f 0 (zrows a b)) /\ c = zrows a b.
+  Proof.
+    intros Hlen. exact (agrees_ok f _ [so; so] _ (tie_default_zip2 f g None a b so nd Hlen)).
+  Qed.
+
+  Theorem src_default_fold_in_order a so nd init :
+    let '(o, m, t, c) := run_fold [a] so f g None (pipe_of gen_default_fold nd) (length a) init in
+    o = FoldOk (fold_acc g 0 init a) /\ List.concat c = a.
+  Proof.
+    pose proof (tie_default_fold f g None a so nd init) as H.
+    destruct (run_fold [a] so f g None (pipe_of gen_default_fold nd) (length a) init) as [[[o m] t] c].
+    rewrite fold_ok in H. injection H as -> _ ->. split; reflexivity.
+  Qed.
+
+  (* a lent sequence is never moved from or dropped by fold, whatever call panics *)
+  Theorem src_default_fold_lent_untouched pan a nd init :
+    let '(o, m, t, c) := run_fold [a] false f g pan (pipe_of gen_default_fold nd) (length a) init in
+    (m ++ t)%list = [].
+  Proof.
+    pose proof (tie_default_fold f g pan a false nd init) as H.
+    destruct (run_fold [a] false f g pan (pipe_of gen_default_fold nd) (length a) init) as [[[o m] t] c].
+    unfold fold_ in H. destruct (fold_loop g pan 0 init a) as [o' calls]. now injection H as _ -> _.
+  Qed.
 End Composed.
 
 (* how generate obtains its destination and hands it back: on the stack an uninitialised array and
